@@ -62,7 +62,7 @@ const ITEMS: &[Item] = &[
     Item { name: "use-of-clipped-group", src: r##"<g id="cg" transform="translate(50)" clip-path="url(#dc100)"><rect wh="10"/></g><use href="#cg" y="30"/>"##, bbox: Some((50., 0., 60., 40.)), defs: r#"<clipPath id="dc100"><rect wh="100"/></clipPath>"# },
     Item { name: "clip-url-quoted", src: r##"<rect xy="0 0" wh="50 50" clip-path="url('#dcp')"/>"##, bbox: Some((10., 10., 20., 15.)), defs: r#"<clipPath id="dcp"><rect xy="10 10" wh="10 5"/></clipPath>"# },
     Item { name: "clip-url-spaced", src: r##"<rect xy="0 0" wh="50 50" clip-path="url( #dcp )"/>"##, bbox: Some((10., 10., 20., 15.)), defs: r#"<clipPath id="dcp"><rect xy="10 10" wh="10 5"/></clipPath>"# },
-    Item { name: "reuse-with-clip-attr", src: r##"<reuse href="#sq" s="100" clip-path="url(#dc10)"/>"##, bbox: Some((0., 0., 100., 100.)), defs: r#"SPECS<rect id="sq" wh="$s"/>"# },
+    Item { name: "reuse-with-clip-attr", src: r##"<defs><clipPath id="dc10r"><rect wh="10"/></clipPath></defs><reuse href="#sq" s="100" clip-path="url(#dc10r)"/>"##, bbox: Some((0., 0., 100., 100.)), defs: r#"SPECS<rect id="sq" wh="$s"/>"# },
     // never-rendered containers written outside <defs>
     Item { name: "toplevel-clippath", src: r#"<clipPath id="tcp"><rect xy="900 900" wh="100"/></clipPath>"#, bbox: None, defs: "" },
     Item { name: "toplevel-mask-marker-pattern", src: r#"<marker id="tmk"><path d="M600 600 L700 700"/></marker><mask id="tms"><rect xy="-900 -900" wh="400"/></mask><pattern id="tpt" width="4" height="4"><rect xy="650 650" wh="9"/></pattern>"#, bbox: None, defs: "" },
